@@ -555,7 +555,7 @@ pub fn run(tier: &str, rec: &Recorder) -> RunOutput {
     let start = Instant::now();
     let mut out = RunOutput::new("model_checking");
     let cap = wall_cap_s(tier);
-    let stages: Vec<(&'static str, usize)> = if tier == "quick" { vec![("mix2", 4), ("mixn3", 3), ("mix3", 2), ("mix2@alias", 3)] } else { vec![("full2", 5), ("mix3", 4), ("mixn3", 4), ("mix2@alias", 5), ("mixn3@alias", 4)] };
+    let stages: Vec<(&'static str, usize)> = if tier == "quick" { vec![("mix2", 4), ("mixn3", 3), ("mix3", 2), ("mix2@alias", 3), ("w2b", 3)] } else { vec![("full2", 5), ("mix3", 4), ("mixn3", 4), ("mix2@alias", 5), ("mixn3@alias", 4), ("w2b", 4)] };
     let n_st = stages.len() as f64;
     let mut notes = vec![];
     let mut ex = true;
@@ -563,7 +563,7 @@ pub fn run(tier: &str, rec: &Recorder) -> RunOutput {
         let p = E1Params {
             alphabet: alpha,
             depth,
-            batch_depth: 0,
+            batch_depth: if alpha.ends_with("2b") { 2 } else { 0 },
             specs: all_specs_costly_first(),
             max_states_per_spec: 60_000_000,
             deadline: start + Duration::from_secs_f64(cap * (notes.len() as f64 + 1.0) / n_st),
